@@ -100,6 +100,7 @@ class Obj:
 class RCells:
     def __init__(self, name, params, expr, cached=True, allow_none=None, form="lambda", doc=None, tick=True):
         self.tick = tick
+        self.terms = None           # deflines layout: list of term expressions (expr is their sum)
         self.tickname = name        # the name written into the tick call (survives renames)
         self.name = name
         self.params = [list(p) for p in params]
@@ -112,6 +113,7 @@ class RCells:
     def copy(self):
         c = RCells(self.name, self.params, self.expr, self.cached, self.allow_none, self.form, self.doc, self.tick)
         c.tickname = self.tickname
+        c.terms = self.terms
         return c
 
     def signature(self):
@@ -120,7 +122,7 @@ class RCells:
     def as_dict(self):
         return {"name": self.name, "params": self.params, "expr": self.expr, "cached": self.cached,
                 "allow_none": self.allow_none, "form": self.form, "doc": self.doc, "tick": self.tick,
-                "tickname": self.tickname}
+                "tickname": self.tickname, "terms": self.terms}
 
 
 def make_sig(params):
@@ -343,6 +345,8 @@ class Trace:
         self.failed = {}        # elem -> (calls, refreads) of an execution that raised
         self.values = {}        # elem -> value of a completed execution
         self.handled = 0        # exceptions caught by formulas themselves
+        self.unwound = []       # elements the escaping exception passed through, innermost first
+        self.curline = {}       # elem -> source line being executed (last known), for tracebacks
         self.executed = []      # elems whose formula ran, in completion order
         self.entered = []       # elems in entry order
         self.created = []       # item spaces created (sid)
@@ -400,7 +404,19 @@ class Evaluator:
         try:
             env = {p: v for (p, _), v in zip(cdef.params, key)}
             self.trace.entered.append(elem)
-            value = self.ev(cdef.expr, ctx, env)
+            if cdef.terms is not None and cdef.form == "deflines":
+                from .expr import first_term_line
+                base = first_term_line(cdef.as_dict())
+                value = 0
+                for j, t in enumerate(cdef.terms):
+                    self.trace.curline[elem] = base + j
+                    v = self.ev(t, ctx, env)
+                    value = v if j == 0 else value + v
+                self.trace.curline[elem] = base + len(cdef.terms)
+            else:
+                self.trace.curline[elem] = 1 if cdef.form == "lambda" else (
+                    2 + (1 if cdef.doc else 0) + (1 if cdef.tick else 0))
+                value = self.ev(cdef.expr, ctx, env)
             if value is None and cdef.cached:
                 if not self.m.effective_allow_none(ctx.base, cdef, definer, ctx.dynamic):
                     raise NoneReturnedError(repr(elem))
@@ -413,6 +429,7 @@ class Evaluator:
         except BaseException as exc:
             if not isinstance(exc, Budget):
                 self.trace.failed.setdefault(elem, (rec[1], rec[2]))
+                self.trace.unwound.append(elem)
             raise
         finally:
             self.stack.pop()
@@ -473,6 +490,8 @@ class Evaluator:
             return ctx
         except Exception:
             self.trace.failed.setdefault(elem, (rec[1], rec[2]))
+            self.trace.unwound.append(elem)
+            self.trace.curline[elem] = 1 if f.get("form", "lambda") == "lambda" else 2
             raise
         finally:
             self.stack.pop()
@@ -638,6 +657,7 @@ class Evaluator:
                 raise
             except Exception:
                 self.trace.handled += 1
+                del self.trace.unwound[:]       # that failure was handled: it is not the escaping chain
                 return self.ev(e[2], ctx, env)
         if k == "failx":
             tag = e[1] + (str(env[e[2]]) if e[2] else "")
